@@ -26,12 +26,13 @@ def rule_det1(ctx: Ctx) -> RuleResult:
     for lp in walk_no_nested(f.node):
         if not isinstance(lp, ast.For) or not isinstance(lp.target, ast.Name):
             continue
-        rcs = ctx.cg.receiver_classes(f, f.module, lp.iter)
-        ch = attr_chain(lp.iter)
-        is_reg = ssr in rcs or (ch is not None and "registry" in ch[-1])
+        lv = lp.target.id
+        # the detection loop is the one whose body offers the value to the loop variable's own parser
+        is_reg = any(isinstance(c, ast.Call) and isinstance(c.func, ast.Attribute) and c.func.attr == "to_internal_value"
+                     and norm(c.func.value) == lv for st in lp.body for c in ast.walk(st)) or any(
+            isinstance(r, ast.Return) and r.value is not None and norm(r.value) == lv for st in lp.body for r in ast.walk(st))
         if not is_reg:
             continue
-        lv = lp.target.id
         rets = [n for st in lp.body for n in ast.walk(st) if isinstance(n, ast.Return) and n.value is not None
                 and lv in names_in(n.value)]
         for r in rets:
@@ -141,11 +142,13 @@ def rule_det2(ctx: Ctx) -> RuleResult:
         if isinstance(lp, ast.For) and c in ctx.cg.receiver_classes(d, d.module, strip_snapshot(lp.iter)[0] if isinstance(
                 lp.iter, ast.Call) else lp.iter):
             pass
-    loops = [lp for lp in walk_no_nested(d.node) if isinstance(lp, ast.For) and any(
-        isinstance(x, ast.Attribute) and "registry" in x.attr for x in ast.walk(lp.iter))]
+    loops = [lp for lp in walk_no_nested(d.node) if isinstance(lp, ast.For) and isinstance(lp.target, ast.Name) and any(
+        isinstance(c, ast.Call) and isinstance(c.func, ast.Attribute) and c.func.attr == "to_internal_value"
+        and norm(c.func.value) == lp.target.id for st in lp.body for c in ast.walk(st))]
     for lp in loops:
         rr.instances += 1
-        direct = isinstance(lp.iter, ast.Attribute)
+        # the registry itself (its __iter__ was checked above) or its registration list
+        direct = isinstance(lp.iter, ast.Attribute) and (lp.iter.attr == attr or "registry" in lp.iter.attr)
         rr.ob(d.relpath, d.qualname, f"for {norm(lp.target)} in {norm(lp.iter)}",
               "the detector walks the registry itself (no sorted/reversed/set)", DISCHARGED if direct else VIOLATED,
               "plain iteration" if direct else f"iterates `{norm(lp.iter)}`", lp.lineno)
